@@ -83,6 +83,12 @@ SEEDS = {
  "C02-m4": ("OPEnv.get_action_mask does not offer the depot as the very first action", "OP instance whose budget reaches no customer"),
  "C04-m3": ("MTVRPEnv.get_action_mask drops the return leg from the limit test only if the whole batch has open routes", "open-route instance with a binding distance limit next to a closed-route batch-mate"),
  "C04-m4": ("MTSPEnv._step takes the fleet size of batch row 0 for every row", "instances with different num_agents, the affected one not in row 0"),
+ "C06-m5": ("PDPRuinRepairEnv.check_solution_validity reuses the state's visited_time (current tour) instead of walking rec_best", "a best tour that differs from the current one and delivers before picking up"),
+ "C06-m6": ("PCTSPEnv.check_solution_validity counts visited customers over the whole batch (lost reduction axis)", "total prize < 1 and batch size > 1"),
+ "C10-m5": ("DecodingStrategy.step passes top_p = 0 / top_k = 0 to process_logits when an action is given", "non-default top_k / top_p together with evaluate mode (re-evaluation of sampled actions)"),
+ "C10-m6": ("sample_n_random_actions sums the mask over the batch axis in its replacement test", "batch with >= n rows where some instance has fewer than n admissible actions"),
+ "C18-m5": ("CVRPTWGenerator._generate scales the coordinates by max_loc instead of max_time", "scale=True with max_loc != max_time"),
+ "C18-m6": ("MTVRPGenerator.subsample_problems keeps only the first non-zero feature of a preset (nonzero(...)[0])", "a named preset with two or more features"),
 }
 for sid in sorted(os.listdir(os.path.join(ROOT, "seeded"))):
     d = os.path.join(ROOT, "seeded", sid)
